@@ -234,7 +234,7 @@ Definition rep_stage (root child k : nat) (leaf : bool) (st : xbst) : xbst :=
 
 Lemma rep_stage_spec root child k leaf st : root < xlen st -> child < xlen st ->
   let n := xlen st in let st' := rep_stage root child k leaf st in let g := x_graph st' in
-  n < xlen st' /\
+  xlen st' = n + (if leaf then 2 else 1) /\
   (forall m, m < n -> kind_of g m = kind_of (x_graph st) m) /\
   (forall m, m < n -> outs_of g m = if m =? root then outs_of (x_graph st) root ++ [n] else outs_of (x_graph st) m) /\
   kind_of g n = KDec true true /\
@@ -257,7 +257,7 @@ Proof.
     unfold xadd, xlen in *. cbn [x_graph x_pay x_draws]. fold g3.
     set (g4 := add_transition g3 n (length (x_graph s2))).
     assert (L4 : length g4 = n + 2) by (unfold g4; rewrite add_len; exact L3).
-    split; [rewrite add_len; lia|].
+    split; [rewrite (add_len g4); exact L4|].
     split; [intros m Hm; rewrite add_kind by lia; unfold g4; rewrite add_kind by lia; unfold g3; rewrite new_kind, K2, K1; eqbs; reflexivity|].
     split; [intros m Hm; rewrite add_outs by lia; unfold g4; rewrite !add_outs by lia; unfold g3; rewrite !new_outs, !O2, !O1; eqbs; reflexivity|].
     split; [rewrite add_kind by lia; unfold g4; rewrite add_kind by lia; unfold g3; rewrite new_kind, K2, K1; eqbs; reflexivity|].
@@ -266,7 +266,7 @@ Proof.
     + rewrite add_kind by lia. unfold g4. rewrite add_kind by lia. unfold g3. rewrite new_kind. eqbs. reflexivity.
     + rewrite add_outs by lia. unfold g4. rewrite !add_outs by lia. unfold g3. rewrite !new_outs. eqbs. reflexivity.
   - unfold xadd, xlen in *. cbn [x_graph x_pay x_draws].
-    split; [rewrite add_len; lia|].
+    split; [rewrite (add_len (x_graph s2)); lia|].
     split; [intros m Hm; rewrite add_kind by lia; rewrite K2, K1; eqbs; reflexivity|].
     split; [intros m Hm; rewrite add_outs by lia; rewrite !O2, !O1; eqbs; reflexivity|].
     split; [rewrite add_kind by lia; rewrite K2, K1; eqbs; reflexivity|].
@@ -295,13 +295,9 @@ Proof.
   intros (Hc & Hr0 & Hr & Kr & A & Old) HF HT.
   destruct (rep_stage_spec root child k leaf st Hr ltac:(lia)) as (L & K & O & Kn & On & Ln). cbv zeta in *.
   set (st' := rep_stage root child k leaf st) in *. set (n := xlen st) in *.
-  assert (Ln' : leaf = true -> n + 1 < xlen st').
-  { intros ->. unfold st', rep_stage, xnoop, xnoop_leaf, xnew. cbn [fst snd]. unfold xadd, xlen. cbn [x_graph].
-    rewrite !add_len, app_length. cbn [length].
-    match goal with |- _ < length (x_graph (xadd_times ?k ?s ?t ?s1)) + 1 =>
-      destruct (xadd_times_spec k s t s1) as (E & _); [unfold xlen; cbn [x_graph]; rewrite app_length; cbn [length]; fold (xlen st); lia
-                                                     |unfold xlen; cbn [x_graph]; rewrite app_length; cbn [length]; fold (xlen st); lia|] end.
-    cbv zeta in E. unfold xlen in E. rewrite E. cbn [x_graph]. rewrite app_length. cbn [length]. fold (xlen st). fold n. lia. }
+  assert (Lgt : n < xlen st') by (destruct leaf; cbv iota in L; lia).
+  assert (Ln' : leaf = true -> n + 1 < xlen st') by (intros E; rewrite E in L; cbv iota in L; lia).
+  clear L.
   unfold RI. cbv zeta. split; [exact Hc|]. split; [exact Hr0|]. split; [lia|]. split; [rewrite K by lia; exact Kr|]. split.
   - intros a Ha. rewrite O in Ha by lia. rewrite Nat.eqb_refl in Ha. apply in_app_or in Ha. destruct Ha as [Ha|[<-|[]]].
     + destruct (A a Ha) as [Ra Alt]. split; [lia|].
@@ -360,4 +356,95 @@ Proof.
   clearbody s5.
   destruct (Nat.eqb_spec mx' mn) as [E|NE]; injection H as <- <-; [exact R5|].
   apply (RI_stage mn mx' child n mx' false st s5 R5); [intros _; split; [right; reflexivity|lia]|discriminate].
+Qed.
+
+(* ---------- the other direction: the boundary cases are all offered ---------- *)
+Inductive rshape := SEmpty (b : bool) | SK (k : nat) | SInv (k : nat).
+Definition Has (child root : nat) (g : graph) (s : rshape) : Prop :=
+  exists a, In a (outs_of g root) /\ root < a < length g /\
+    match s with
+    | SEmpty b => kind_of g a = KLeaf b /\ outs_of g a = []
+    | SK k => kind_of g a = KDec true true /\ outs_of g a = repeat child k
+    | SInv k => kind_of g a = KDec true true /\ exists l, outs_of g a = repeat child k ++ [l] /\ root < l < length g /\
+                                                     kind_of g l = KLeaf false /\ outs_of g l = []
+    end.
+
+Lemma Has_stage_keep child root k leaf st s : root < xlen st -> child < xlen st ->
+  Has child root (x_graph st) s -> Has child root (x_graph (rep_stage root child k leaf st)) s.
+Proof.
+  intros Hr Hc (a & Ha & Ra & Sa).
+  destruct (rep_stage_spec root child k leaf st Hr Hc) as (L & K & O & _). cbv zeta in *.
+  set (st' := rep_stage root child k leaf st) in *. unfold xlen in *.
+  assert (Lgt : length (x_graph st) < length (x_graph st')) by (destruct leaf; cbv iota in L; lia).
+  exists a. split; [rewrite O by lia; rewrite Nat.eqb_refl; apply in_or_app; left; exact Ha|]. split; [lia|].
+  assert (Ea : a =? root = false) by (apply Nat.eqb_neq; lia).
+  destruct s as [b|kk|kk].
+  - rewrite K, O by lia. rewrite Ea. exact Sa.
+  - rewrite K, O by lia. rewrite Ea. exact Sa.
+  - destruct Sa as (Ka & l & Oa & Rl & Kl & Ol). rewrite K, O by lia. rewrite Ea. split; [exact Ka|]. exists l.
+    assert (El : l =? root = false) by (apply Nat.eqb_neq; lia). rewrite K, O by lia. rewrite El. repeat split; auto; lia.
+Qed.
+
+Lemma Has_stage_new child root k leaf st : root < xlen st -> child < xlen st ->
+  Has child root (x_graph (rep_stage root child k leaf st)) (if leaf then SInv k else SK k).
+Proof.
+  intros Hr Hc. destruct (rep_stage_spec root child k leaf st Hr Hc) as (L & K & O & Kn & On & Ln). cbv zeta in *.
+  set (st' := rep_stage root child k leaf st) in *. unfold xlen in *. set (n := length (x_graph st)) in *.
+  exists n. split; [rewrite O by lia; rewrite Nat.eqb_refl; apply in_or_app; right; left; reflexivity|].
+  destruct leaf; cbv iota in L.
+  - split; [lia|]. split; [exact Kn|]. exists (n + 1). destruct (Ln eq_refl) as [Kl Ol]. repeat split; auto; lia.
+  - split; [lia|]. split; [exact Kn|]. rewrite On, app_nil_r. reflexivity.
+Qed.
+
+Lemma rep_stage_len root child k leaf st : root < xlen st -> child < xlen st -> xlen st < xlen (rep_stage root child k leaf st).
+Proof. intros Hr Hc. destruct (rep_stage_spec root child k leaf st Hr Hc) as (L & _). cbv zeta in L. destruct leaf; cbv iota in L; lia. Qed.
+
+Theorem repeat_node_offers child mn mx st st' root :
+  child < xlen st -> repeat_node child mn mx st = Ok (st', root) ->
+  let mx' := match mx with None => mn + 1 | Some m => m end in
+  let g := x_graph st' in
+  Has child root g (SEmpty (mn =? 0)) /\
+  (0 < mn -> Has child root g (SK mn)) /\
+  (1 < mn -> Has child root g (SInv (mn - 1))) /\
+  (mx' <> mn -> Has child root g (SK mx')).
+Proof.
+  intros Hc H mx' g. subst g. unfold repeat_node in H. unfold xnoop, xnoop_leaf, xnew in H. cbn [fst snd] in H. fold mx' in H.
+  destruct (Nat.ltb_spec mx' mn) as [|Hle]; [discriminate|].
+  set (n := length (x_graph st)) in *.
+  set (s1 := mkXbst (x_graph st ++ [mkNode (KDec false true) (@None str) [] []]) (x_pay st ++ [XPNone]) (x_draws st)) in *.
+  set (s2 := mkXbst (x_graph s1 ++ [mkNode (KLeaf (mn =? 0)) (@None str) [] []]) (x_pay s1 ++ [XPNone]) (x_draws s1)) in *.
+  set (s3 := xadd n (length (x_graph s1)) s2) in *.
+  assert (L1 : length (x_graph s1) = n + 1) by (unfold s1; cbn [x_graph]; rewrite app_length; cbn [length]; fold n; lia).
+  assert (L2 : length (x_graph s2) = n + 2) by (unfold s2; cbn [x_graph]; rewrite app_length, L1; cbn [length]; lia).
+  assert (L3 : xlen s3 = n + 2) by (unfold s3, xadd, xlen; cbn [x_graph]; rewrite add_len; exact L2).
+  assert (H3 : Has child n (x_graph s3) (SEmpty (mn =? 0))).
+  { exists (n + 1). unfold s3, xadd. cbn [x_graph]. rewrite add_len, L2.
+    rewrite add_kind, !add_outs by lia. rewrite Nat.eqb_refl. unfold s2. cbn [x_graph]. rewrite new_kind, !new_outs, L1.
+    unfold s1. cbn [x_graph]. rewrite !new_outs. fold n. rewrite Nat.eqb_refl.
+    eqbs; (split; [left; reflexivity|]; split; [lia|]; split; reflexivity). }
+  unfold xlen in Hc. fold n in Hc.
+  clearbody s3. clear s1 s2 L1 L2.
+  set (s4 := if 0 <? mn then _ else s3) in H.
+  assert (R4 : n + 2 <= xlen s4 /\ Has child n (x_graph s4) (SEmpty (mn =? 0)) /\ (0 < mn -> Has child n (x_graph s4) (SK mn))).
+  { unfold s4. destruct (Nat.ltb_spec 0 mn); [|split; [lia|split; [exact H3|lia]]].
+    pose proof (rep_stage_len n child mn false s3 ltac:(lia) ltac:(lia)).
+    split; [unfold rep_stage, xnoop, xnew in *; cbn [fst snd] in *; lia|].
+    split; [apply (Has_stage_keep child n mn false s3); [lia|lia|exact H3]|intros _; apply (Has_stage_new child n mn false s3); lia]. }
+  clearbody s4. clear H3 L3 s3. destruct R4 as (L4 & E4 & M4).
+  set (s5 := if 1 <? mn then _ else s4) in H.
+  assert (R5 : n + 2 <= xlen s5 /\ Has child n (x_graph s5) (SEmpty (mn =? 0)) /\ (0 < mn -> Has child n (x_graph s5) (SK mn)) /\
+               (1 < mn -> Has child n (x_graph s5) (SInv (mn - 1)))).
+  { unfold s5. destruct (Nat.ltb_spec 1 mn); [|split; [lia|split; [exact E4|split; [exact M4|lia]]]].
+    pose proof (rep_stage_len n child (mn - 1) true s4 ltac:(lia) ltac:(lia)).
+    split; [unfold rep_stage, xnoop, xnoop_leaf, xnew in *; cbn [fst snd] in *; lia|].
+    split; [apply (Has_stage_keep child n (mn - 1) true s4); [lia|lia|exact E4]|].
+    split; [intros Hm; apply (Has_stage_keep child n (mn - 1) true s4); [lia|lia|exact (M4 Hm)]|].
+    intros _. apply (Has_stage_new child n (mn - 1) true s4); lia. }
+  clearbody s5. clear E4 M4 L4 s4. destruct R5 as (L5 & E5 & M5 & I5).
+  destruct (Nat.eqb_spec mx' mn) as [E|NE]; injection H as <- <-.
+  - split; [exact E5|]. split; [exact M5|]. split; [exact I5|]. intros X; contradiction.
+  - split; [apply (Has_stage_keep child n mx' false s5); [lia|lia|exact E5]|].
+    split; [intros Hm; apply (Has_stage_keep child n mx' false s5); [lia|lia|exact (M5 Hm)]|].
+    split; [intros Hm; apply (Has_stage_keep child n mx' false s5); [lia|lia|exact (I5 Hm)]|].
+    intros _. apply (Has_stage_new child n mx' false s5); lia.
 Qed.
